@@ -870,3 +870,187 @@ func genC08RootOrder(r *rand.Rand, group int) []*Case {
 	}
 	return out
 }
+
+// ---------------------------------------------------------------- shared walk-context state: several roots / several paths
+
+// genSharedRoots: n roots that are variations of one content (same relative directories and files, different sizes and
+// kinds, an entry missing here and there -- in the first root too), so that state kept in the shared walk context
+// (skip sets, lazy stat, gitignore stack, counters) meets the same relative path again in the next root.
+func genSharedRoots(r *rand.Rand, n int, o genOpts, nPat int) []*Node {
+	b := o.budget
+	base := genDir(r, ".", 0, &b, o, nPat)
+	var roots []*Node
+	for i := 0; i < n; i++ {
+		v := clone(base)
+		var rec func(x *Node)
+		rec = func(x *Node) {
+			var keep []*Node
+			for _, c := range x.Children {
+				if c.Name != ".gitignore" && r.Intn(100) < 12 {
+					continue // missing in this root
+				}
+				if !c.isDir() && c.Name != ".gitignore" {
+					if r.Intn(100) < 60 {
+						c.Size = sizePool[r.Intn(len(sizePool))]
+					}
+					if r.Intn(100) < 15 {
+						c.Kind = []string{"reg", "sym"}[r.Intn(2)]
+						c.Bits = 0
+					}
+				}
+				keep = append(keep, c)
+				rec(c)
+			}
+			x.Children = keep
+			if i > 0 && len(x.Children) > 1 && r.Intn(2) == 0 {
+				k := len(x.Children)
+				x.Children = append([]*Node{x.Children[k-1]}, x.Children[:k-1]...)
+			}
+		}
+		rec(v)
+		roots = append(roots, v)
+	}
+	return roots
+}
+
+// sharedOptions applies every option dimension of the single-root streams to a multi-root case.
+func sharedOptions(r *rand.Rand, c *Case) {
+	seen := map[string]bool{}
+	var dirs []string
+	for _, root := range c.Roots {
+		for _, p := range pathsOf(root, func(n *Node) bool { return n.isDir() && n != root }) {
+			if !seen[p] {
+				seen[p] = true
+				dirs = append(dirs, p)
+			}
+		}
+	}
+	sort.Strings(dirs)
+	if r.Intn(100) < 55 {
+		c.SkipList = pickSome(r, dirs, 2)
+	}
+	if r.Intn(100) < 25 {
+		c.Regex = sp(regexPool[r.Intn(len(regexPool))])
+	}
+	if r.Intn(100) < 25 {
+		c.Glob = sp(globPool[r.Intn(len(globPool))])
+	}
+	c.Symlinks = r.Intn(100) < 40
+	if r.Intn(100) < 50 {
+		c.MaxSize = []int{1, 5, 10}[r.Intn(3)]
+	}
+}
+
+// genMultiShared: a multi-root case over shared content with options, tables and (optionally) stat-consulting extractors.
+func genMultiShared(r *rand.Rand, stream string) *Case {
+	c := &Case{Stream: stream}
+	o := genOpts{maxDepth: 2, maxFan: 3, budget: 9, gitignore: r.Intn(100) < 40}
+	c.Gitignore = o.gitignore
+	nPat := 0
+	if o.gitignore {
+		c.PatFiles = genPatFiles(r)
+		nPat = len(c.PatFiles)
+	}
+	c.Roots = genSharedRoots(r, 2+r.Intn(2), o, nPat)
+	sharedOptions(r, c)
+	genTables(r, c, 1+r.Intn(2), 20)
+	for _, e := range c.Exts {
+		for _, root := range c.Roots {
+			for _, p := range pathsOf(root, func(x *Node) bool { return !x.isDir() }) {
+				has := false
+				for _, q := range c.Req {
+					if q[0] == e && q[1] == p {
+						has = true
+					}
+				}
+				if !has && r.Intn(100) < 60 {
+					c.Req = append(c.Req, [2]string{e, p})
+					if r.Intn(2) == 0 {
+						c.Extract = append(c.Extract, XEntry{Ext: e, Path: p, Pkgs: []Pkg{{Name: "p", Version: "1", Locs: []string{p}}}})
+					}
+				}
+			}
+		}
+	}
+	genStatReq(r, c, 35)
+	return c
+}
+
+// genMultiPath: one root, PathsToExtract of length 2..3 mixing directories and files in both orders, with .gitignore
+// files of ancestors that match requested files; optionally a requested path that cannot be stat'ed at a chosen position.
+func genMultiPath(r *rand.Rand, stream string, statFault bool) *Case {
+	c := &Case{Stream: stream, Gitignore: r.Intn(100) < 75}
+	pick := func() string { return namePool[r.Intn(len(namePool))] }
+	f := pick()
+	sub := pick()
+	for sub == f {
+		sub = pick()
+	}
+	x := pick()
+	c.PatFiles = [][]string{{f}, {"*"}, {sub + "/"}}
+	o := genOpts{maxDepth: 1, maxFan: 3, budget: 4}
+	b := o.budget
+	subdir := genDir(r, sub, 1, &b, o, 0)
+	if len(subdir.Children) == 0 {
+		subdir.Children = []*Node{{Name: f, Kind: "reg", Size: 1}}
+	}
+	xdir := &Node{Name: x, Kind: "dir", Children: []*Node{
+		{Name: ".gitignore", Kind: "reg", Size: 3, Data: 1 + r.Intn(2)},
+		subdir,
+		{Name: f, Kind: "reg", Size: sizePool[r.Intn(len(sizePool))]},
+	}}
+	if sub == ".gitignore" || f == ".gitignore" {
+		xdir.Children = xdir.Children[1:]
+	}
+	b = 5
+	root := genDir(r, ".", 0, &b, genOpts{maxDepth: 1, maxFan: 3, budget: 5}, 0)
+	var keep []*Node
+	for _, ch := range root.Children {
+		if ch.Name != x {
+			keep = append(keep, ch)
+		}
+	}
+	root.Children = append(keep, xdir)
+	r.Shuffle(len(root.Children), func(i, j int) { root.Children[i], root.Children[j] = root.Children[j], root.Children[i] })
+	c.Roots = []*Node{root}
+	dirP, fileP := x+"/"+sub, x+"/"+f
+	cands := [][]string{{dirP, fileP}, {fileP, dirP}, {x, fileP}, {fileP, x, dirP}, {dirP, x}}
+	c.Paths = append([]string{}, cands[r.Intn(len(cands))]...)
+	if r.Intn(4) == 0 {
+		others := pathsOf(root, func(n *Node) bool { return n != root })
+		c.Paths = append(c.Paths, others[r.Intn(len(others))])
+	}
+	if r.Intn(100) < 25 {
+		c.MaxSize = []int{1, 5, 10}[r.Intn(3)]
+	}
+	c.Symlinks = r.Intn(100) < 30
+	genTables(r, c, 1+r.Intn(2), 15)
+	for _, e := range c.Exts {
+		for _, p := range pathsOf(root, func(n *Node) bool { return !n.isDir() }) {
+			has := false
+			for _, q := range c.Req {
+				if q[0] == e && q[1] == p {
+					has = true
+				}
+			}
+			if !has && r.Intn(100) < 75 {
+				c.Req = append(c.Req, [2]string{e, p})
+				c.Extract = append(c.Extract, XEntry{Ext: e, Path: p, Pkgs: []Pkg{{Name: "p", Version: "1", Locs: []string{p}}}})
+			}
+		}
+	}
+	if statFault {
+		// a requested path at a chosen position cannot be stat'ed
+		k := r.Intn(len(c.Paths))
+		if n := findNode(root, c.Paths[k]); n != nil {
+			n.FStat = true
+			n.ErrKind = []string{"perm", "other"}[r.Intn(2)]
+			c.Note = fmt.Sprintf("stat:%s:0 (requested path %d of %d)", c.Paths[k], k+1, len(c.Paths))
+		}
+		if r.Intn(3) == 0 {
+			c.Paths = append([]string{"missing/x"}, c.Paths...)
+		}
+		c.Fatal = r.Intn(5) == 0
+	}
+	return c
+}
